@@ -79,7 +79,7 @@ func runStandin(o *checkOpts, sp StandinSpec) *StandinResult {
 	ovData, _ := json.Marshal(ov)
 	ovFile := filepath.Join(tmp, "overlay.json")
 	os.WriteFile(ovFile, ovData, 0o644)
-	args := []string{"test", "-overlay", ovFile, "-vet=off", "-count=1", "-timeout", "900s", "-run", "^" + sp.Test + "$", "."}
+	args := []string{"test", "-overlay", ovFile, "-vet=off", "-v", "-count=1", "-timeout", "900s", "-run", "^" + sp.Test + "$", "."}
 	cmd := exec.Command("go", args...)
 	cmd.Dir = pkgDir
 	cmd.Env = append(os.Environ(), "GOFLAGS=-mod=mod", "GOPROXY=off", "FOXVC_TIER="+o.tier, fmt.Sprintf("FOXVC_SEED=%d", o.seed))
